@@ -14,8 +14,9 @@
      ProofsReadAll ReadAll = fold of its loop body over the decoder's records
      ProofsEffect  that fold over stored logical records = effect
      ProofsHistory histories that stay in the first segment: explicit stream, sync points, directory
+     ProofsAppend  reopening for append: zero tail, ReadAll on a stream incl. the continued crc, two generations
      ProofsCapstone end to end: crash cut at any offset -> reopen = error or effect(prefix >= synced)
      ProofsRefute  witnesses against the full statement (Spec.C05_full) *)
 From ZV Require Export Wal.ProofsCrc Wal.ProofsProto Wal.ProofsFrame Wal.ProofsDecode Wal.ProofsTorn
   Wal.ProofsPrefix Wal.ProofsRepair Wal.ProofsWriter Wal.ProofsNames Wal.ProofsSegs Wal.ProofsFlip Wal.ProofsLog Wal.ProofsRefute
-  Wal.ProofsReadAll Wal.ProofsEffect Wal.ProofsHistory Wal.ProofsCapstone.
+  Wal.ProofsReadAll Wal.ProofsEffect Wal.ProofsHistory Wal.ProofsAppend Wal.ProofsCapstone.
